@@ -590,7 +590,31 @@ def _check_roundtrip(rec, ind, L, st, rng, nalpha, info):
     want = th * supp[:, :, None]
     e2 = _maxdiff(back, want) / max(1e-300, float(np.max(np.abs(th))))
     rec.check("angc_to_ylm_roundtrip", e2, TOL_RT, mechanism="reduce_angc_ylm_:roundtrip-not-identity-on-supported-lm")
-    return max(e1, e2)
+    # the same two projections with the channel block EMBEDDED in a wider grid-side array (offset / stride, as the interpolators
+    # call them: one l = 1 block of width n1 at offset n0 + 3 n1 of an array of width n0 + 4 n1), incl. a single channel
+    e3 = 0.0
+    for na_e, stride, off in ((1, 3, 1), (1, 5, 4), (2, 5, 1), (nalpha, nalpha + 3, 2)):
+        if na_e > nalpha:
+            continue
+        wide = rng.normal(size=(ind.ngrids, stride))
+        wide[:, off:off + na_e] = tgw[:, :na_e]
+        back_e = np.full((nrad, nlm, na_e), np.nan)
+        ind.reduce_angc_ylm_(back_e, np.ascontiguousarray(wide), a2y=True, offset=off)
+        ea = _maxdiff(back_e, want[:, :, :na_e]) / max(1e-300, float(np.max(np.abs(th))))
+        rec.check("angc_to_ylm_embedded_block", ea, TOL_RT, mechanism="reduce_angc_ylm_[a2y,offset/stride]:differs-from-plain-call",
+                  detail={"nalpha": na_e, "stride": stride, "offset": off})
+        wide2 = np.ascontiguousarray(rng.normal(size=(ind.ngrids, stride)))
+        keep = wide2.copy()
+        ind.reduce_angc_ylm_(np.ascontiguousarray(th[:, :, :na_e]), wide2, a2y=False, offset=off)
+        eb = _maxdiff(wide2[:, off:off + na_e], ref[:, :na_e]) / scale
+        other = np.ones(stride, dtype=bool)
+        other[off:off + na_e] = False
+        rec.check("ylm_to_angc_embedded_block", eb, TOL_RT, mechanism="reduce_angc_ylm_[y2a,offset/stride]:differs-from-plain-call",
+                  detail={"nalpha": na_e, "stride": stride, "offset": off})
+        rec.require("embedded_block_leaves_other_columns", np.array_equal(wide2[:, other], keep[:, other]),
+                    mechanism="reduce_angc_ylm_[y2a,offset/stride]:writes-other-columns")
+        e3 = max(e3, ea, eb)
+    return max(e1, e2, e3)
 
 
 def _rho(mol, coords, zeta):
